@@ -249,6 +249,10 @@ class Executor(object):
         for p in a.kwonlyargs:
             if p.arg in args:
                 env[p.arg] = args[p.arg]
+        if a.kwarg is not None:
+            env[a.kwarg.arg] = args.get(a.kwarg.arg, {})
+        if a.vararg is not None:
+            env[a.vararg.arg] = args.get(a.vararg.arg, [])
         st.env = env
         self._fn_stack.append(fn.name)
         self._fn_nodes.append(fn)
@@ -382,6 +386,48 @@ class Executor(object):
         elif e is not None:
             name = _dotted(e)
         return [(st, ('raise', Raised(name, args)))]
+
+    def stmt_Try(self, node, st):
+        """try/except/else/finally: an exception raised by a `raise`
+        statement (or a modelled callee) in the body is matched against the
+        handlers by class name; a bare `except:` / `except Exception`
+        catches everything.  Exceptions Python itself would raise inside an
+        expression (TypeError of len(3) ...) are NOT modelled: the body is
+        assumed not to raise them (stated in `dropped`)."""
+        self.dropped.add('implicit exceptions inside try bodies')
+        out = []
+        for s1, sig in self.exec_block(node.body, st):
+            if sig is not None and sig[0] == 'raise':
+                handled = False
+                for h in node.handlers:
+                    names = []
+                    if h.type is None:
+                        names = None
+                    elif isinstance(h.type, ast.Tuple):
+                        names = [_dotted(x) for x in h.type.elts]
+                    else:
+                        names = [_dotted(h.type)]
+                    if names is None or 'Exception' in names or \
+                            'BaseException' in names or \
+                            sig[1].exc_type in names:
+                        if h.name:
+                            s1.env[h.name] = sig[1]
+                        out.extend(self.exec_block(h.body, s1))
+                        handled = True
+                        break
+                if not handled:
+                    out.append((s1, sig))
+            elif sig is None:
+                out.extend(self.exec_block(node.orelse, s1))
+            else:
+                out.append((s1, sig))
+        if node.finalbody:
+            res = []
+            for s1, sig in out:
+                for s2, sig2 in self.exec_block(node.finalbody, s1):
+                    res.append((s2, sig2 if sig2 is not None else sig))
+            out = res
+        return out
 
     def stmt_Assert(self, node, st):
         c = self.eval(node.test, st)
@@ -611,6 +657,8 @@ class Executor(object):
         spec = self.loop_specs.get((fn, k))
         out = []
         for s1, it in self.eval_forking(node.iter, st):
+            if getattr(self, 'iterable_hook', None) is not None:
+                self.iterable_hook(node, it, s1)
             if isinstance(it, _Range):
                 conc = all(not is_sym(x) for x in (it.start, it.stop,
                                                    it.step))
@@ -1199,7 +1247,7 @@ class Executor(object):
                 return _ListMethod(base, a)
         if isinstance(base, dict):
             if a in ('get', 'keys', 'values', 'items', 'update', 'pop',
-                     'setdefault', 'copy'):
+                     'setdefault', 'copy', 'has_key'):
                 return _DictMethod(base, a)
         if isinstance(base, str):
             return _StrMethod(base, a)
@@ -1362,6 +1410,14 @@ class Executor(object):
                     if all(isinstance(x, (str, int, bool, type(None)))
                            for x in vals):
                         return a % b
+                    if all(isinstance(x, (str, int, bool, type(None))) or
+                           is_sym(x) for x in vals):
+                        # a symbolic number printed into generated text: an
+                        # opaque marker naming the term (sound as long as the
+                        # code does not parse the string again)
+                        vv = tuple('<<%s>>' % z3.simplify(x) if is_sym(x)
+                                   else x for x in vals)
+                        return a % (vv if isinstance(b, tuple) else vv[0])
                 except Exception:
                     pass
                 return '<formatted>'
@@ -2087,6 +2143,11 @@ class _ListMethod(object):
             return list(self.lst)
         if self.name == 'index':
             return self.lst.index(args[0])
+        if self.name == 'remove':
+            if any(is_sym(x) for x in self.lst) or is_sym(args[0]):
+                raise VCError('list.remove on symbolic values')
+            self.lst.remove(args[0])
+            return None
         if self.name == 'insert':
             self.lst.insert(args[0], args[1])
             return None
@@ -2138,6 +2199,8 @@ class _DictMethod(object):
             return self.d.pop(*args)
         if n == 'setdefault':
             return self.d.setdefault(*args)
+        if n == 'has_key':
+            return args[0] in self.d
         raise VCError('dict.%s' % n)
 
 
